@@ -77,6 +77,11 @@ LEVELS = {
         "note": "trusted: text layer; YAML emitter order is observed, not modelled",
         "technique": "Coq proof: order lemmas over the decode fold and the marshal model; differential correspondence with member-order observables",
     },
+    "C02": {
+        "text": "Coq theorems: verification reads the presented step only through its signed content (five field values + env shadowing), so a signed step replaced by any step with the same signed content verifies under the public key with the pipeline env plus unrelated variables (signed_roundtrip, over the ideal scheme); payload independent of every map order; nil and empty env/plugins/matrix give the same signed value; canonical plugin sources are fixpoints. That re-parsing preserves the signed content is C09's fixpoint theorem; the whole chain (parse, sign, marshal, re-read, parse, verify) is executed in the model and compared with the library on the JSON leg, and the YAML leg and the per-step UnmarshalJSON entry are checked by oracle with real keys.",
+        "note": "trusted: ideal signature scheme; YAML emitter/scanner; composition with C09's fixpoint",
+        "technique": "Coq proof: corollary of payload canonicity + verify-completeness; model-executed round trip in the correspondence",
+    },
 }
 
 REASONS_PENDING = "check not built yet in this revision (work in progress; see DESIGN.md §10 build order)"
